@@ -188,7 +188,8 @@ def gen_scenario(r, idx, family="mixed"):
                             "capture": r.random() < 0.5})
     return finish_scenario(dict(idx=idx, family=family, retries=retries, ss=ss, sf=sf, fail_fast=fail_fast,
                                 tests=tests, bin_tests=bin_tests, overrides=overrides, scripts=scripts,
-                                threads=r.choice([1, 2, 4])))
+                                threads=r.choice([1, 2, 4]),
+                                double_spawn=not (scripts and r.random() < 0.5)))
 
 
 def toml_str(s):
@@ -338,8 +339,9 @@ def run_one(rig, sc, timeout=90):
                 done[0] = True
             return done[0]
         signals = [(trigger, 0)]
-        if not sc.get("double_spawn", True):
-            env_extra["NEXTEST_DOUBLE_SPAWN"] = "0"
+    if not sc.get("double_spawn", True):
+        # without the launcher an unspawnable test / script is an execution failure (with it: exit 70, FAIL)
+        env_extra["NEXTEST_DOUBLE_SPAWN"] = "0"
     jp = junit_path(sc["profile"])
     if os.path.exists(jp):
         os.remove(jp)
@@ -885,7 +887,7 @@ def run(tier, seed):
     for k in range(4 if thorough else 2):
         scs.append(sabotage_scenario(r, idx, double_spawn=bool(k % 2)))
         idx += 1
-    n_mixed, n_hostile = (170, 40) if thorough else (30, 6)
+    n_mixed, n_hostile = (480, 80) if thorough else (30, 6)
     for _ in range(n_mixed):
         scs.append(gen_scenario(r, idx, "mixed"))
         idx += 1
